@@ -30,8 +30,10 @@ def plan(tier, seed):
                 "re-checking every clause; rejected documents are counted per clause); written as default TriG and read back. distinct = "
                 "canonical program hash; non-trivial = >= 1 relation and the round trip was compared",
         "assumptions": [
-            "reading of 'PROV-O-expressible': alternate, specialization and membership have no qualified form in PROV-O and are generated "
-            "anonymous and bare only; identifiers name records of one kind document-wide",
+            "reading of 'PROV-O-expressible': identifiers name records of one kind document-wide; an element's prov:type does not name one "
+            "of the three base classes prov:Entity / prov:Activity / prov:Agent (in RDF that triple *is* the node's kind: it cannot be told "
+            "from it, and naming another base class gives the node two kinds); subclasses (prov:Person, prov:Plan, prov:Collection ...) are "
+            "generated on elements of every kind, matching or not",
             "comparison is set based against unified() because RDF is a set of triples",
             "rdflib 7.x is the RDF library on both sides (the repository pins <7; 7.6 is what is installed offline)",
         ],
@@ -48,7 +50,7 @@ def finish_worker(ctx):
 
 def make_case(ctx, idx):
     r = case_rng(ctx.seed, ID, idx)
-    return {"ops": rdfspace.program(r)}
+    return {"ops": rdfspace.program(r, non_ascii=r.random() < 0.3, names_non_ascii=r.random() < 0.25)}
 
 
 def setsnap(doc):
